@@ -112,10 +112,15 @@ def rational_quadratic_spline(
     cumheights[..., -1] = top
     heights = cumheights[..., 1:] - cumheights[..., :-1]
 
+    # The knots are scaled by the box, so the right-edge epsilon must be too.
     if inverse:
-        bin_idx = torchutils.searchsorted(cumheights, inputs)[..., None]
+        bin_idx = torchutils.searchsorted(
+            cumheights, inputs, eps=1e-6 * (top - bottom)
+        )[..., None]
     else:
-        bin_idx = torchutils.searchsorted(cumwidths, inputs)[..., None]
+        bin_idx = torchutils.searchsorted(
+            cumwidths, inputs, eps=1e-6 * (right - left)
+        )[..., None]
 
     input_cumwidths = cumwidths.gather(-1, bin_idx)[..., 0]
     input_bin_widths = widths.gather(-1, bin_idx)[..., 0]
